@@ -415,3 +415,17 @@ def _(root):
 def _(root):
     """property-preserving: update_wrapper called with keywords"""
     sub_all(root, CACHES, "        return update_wrapper(wrapper, user_function)", "        return update_wrapper(wrapper, wrapped=user_function)", count_min=12)
+
+
+@V('keygen-self-drop-nested-guards')
+def _(root):
+    """property-preserving: the two conditions of the bound-instance removal as nested ifs, membership tested against the decomposed name set (a parameter name is a str)"""
+    sub_all(root, ('_inspect.py',), "        if _bound and explicitly_named[0] in ignored:\n            user_args = user_args[1:]                # remove 'self' instance\n            user_kwds.pop(explicitly_named[0], None) #XXX: unnecessary?\n            explicitly_named = explicitly_named[1:]  # remove 'self' name\n",
+            "        if _bound:\n          if explicitly_named[0] in names_to_ignore:\n            user_args = user_args[1:]                # remove 'self' instance\n            user_kwds.pop(explicitly_named[0], None) #XXX: unnecessary?\n            explicitly_named = explicitly_named[1:]  # remove 'self' name\n")
+
+
+@V('dir-setdefault-with-private-sentinel')
+def _(root):
+    """property-preserving: setdefault asks for presence with a private sentinel default (a stored None is a value), and re-stores as today"""
+    sub_all(root, ('_archives.py',), "        res = self.get(key, *value)\n        self.__setitem__(key, res)\n        return res",
+            "        _missing = []\n        res = self.get(key, _missing)\n        if res is _missing:\n            res = self.get(key, *value)\n        self.__setitem__(key, res)\n        return res")
